@@ -195,6 +195,12 @@ fn mk_request(ask: &Ask, id: u16, edns: Option<u16>, dnssec_ok: bool) -> Vec<u8>
     let name = Name::<Vec<u8>>::from_chars(format!("{}.svc.", ask.label()).chars()).unwrap();
     q.push((name, Rtype::TXT)).unwrap();
     let mut ad = q.additional();
+    if edns.is_none() && sim::chance("req.extra_additional", 1, 4) {
+        // A request without EDNS may still carry additional records.
+        sim::stat("probe.non_edns_request_with_additional_record");
+        let extra = Name::<Vec<u8>>::from_chars("extra.svc.".chars()).unwrap();
+        ad.push((extra, domain::base::iana::Class::IN, domain::base::Ttl::from_secs(0), domain::rdata::A::new(std::net::Ipv4Addr::new(192, 0, 2, 9)))).unwrap();
+    }
     if let Some(size) = edns {
         ad.opt(|o| {
             o.set_udp_payload_size(size);
@@ -695,6 +701,7 @@ async fn run(_tier: Tier) {
     let udp = UdpNet::new();
     let server_addr = addr(1, 53);
     let server_sock = udp.bind(server_addr);
+    server_sock.spurious_readiness(sim::chance("cfg.spurious_readiness", 1, 3));
     let listener = net::listener("srv");
     let led: Led = Rc::new(RefCell::new(Ledger::default()));
 
@@ -842,6 +849,12 @@ fn check(led: &Led, max_response_size: Option<u16>, junk: &[Vec<u8>]) {
         let s = &l.sent[idx];
         let want_q = format!("{}.svc", s.ask.label());
         let q_ok = v.questions.len() == 1 && v.questions[0].0.eq_ignore_ascii_case(&want_q) && v.questions[0].1 == Rtype::TXT;
+        if !q_ok && l.junk_conns.contains(&(*client, *conn)) {
+            // The answer to whatever the server made of this peer's own
+            // misframed octets; its id coincides with a request's by chance.
+            sim::stat("probe.reply_to_misframed_input_with_colliding_id");
+            continue;
+        }
         if !q_ok && s.excused != Some("hostile-input-on-same-connection") {
             if sim::violation(P, "attribution", "wrong-question", format!("response to k={} id={} carries question {:?}", s.ask.k, s.id, v.questions)) {
                 return;
